@@ -523,7 +523,6 @@ func stripConv(p *Prog, e ast.Expr) ast.Expr {
 	}
 }
 
-
 // checkWritesRequireOpenAgent: every data write of Conn is made only where loop.Err() was nil
 // (shared by C07 R7.1, where it is part of the write-path rule, and C08 R8.14).
 func checkWritesRequireOpenAgent(p *Prog, r *Report) {
